@@ -13,14 +13,13 @@
    What is translated is every assignment to the response packet outside the generated dispatcher, and the one-way test of
    InvokeTimeout. What stays hand-modelled: which branch Protocol.Invoke takes (the select on ctx.Done(), the tars_ping test,
    the filter chain and Dispatch, err != nil) - [go_invoke_rsp] below composes the translated pieces in the order of the
-   source along a path that is given from outside; the fields Status / Context (maps with string keys) are not fields of
-   the generated records; rsp2Byte is covered by the codec layer. *)
+   source along a path that is given from outside; the members Status / Context (maps with string keys) are carried along untouched; rsp2Byte is covered by the codec layer. *)
 From Coq Require Import List NArith ZArith Bool Lia.
 From TarsV Require Import Gen.Consts Base.Hex Rpc.Invoke Xlate.GoSem Xlate.GoSemFacts Gen.Translated.
 Import ListNotations.
 Open Scope Z_scope.
 
-(* the request as the Go struct (the two map fields are not part of the generated record) *)
+(* the request as the Go struct *)
 Definition req_rec (r : request) : go_requestf_RequestPacket :=
   {| go_requestf_RequestPacket_IVersion := q_ver r;
      go_requestf_RequestPacket_CPacketType := q_ptype r;
@@ -29,7 +28,8 @@ Definition req_rec (r : request) : go_requestf_RequestPacket :=
      go_requestf_RequestPacket_SServantName := q_servant r;
      go_requestf_RequestPacket_SFuncName := q_func r;
      go_requestf_RequestPacket_SBuffer := [];
-     go_requestf_RequestPacket_ITimeout := q_timeout r |}.
+     go_requestf_RequestPacket_ITimeout := q_timeout r;
+     go_requestf_RequestPacket_Context := []; go_requestf_RequestPacket_Status := [] |}.   (* the maps are not looked at by the translated statements *)
 
 (* the Go response struct and the model's reply agree on every scalar member and on the result text; on the paths below
    the dispatcher has not run and both bodies are empty *)
